@@ -1,8 +1,88 @@
+/-
+C16 driver (also serves the location function of C17 under the same id).
+
+  C16 lex   x<hex utf8 text>                 → items … then `eof` | `err:<msg>:<lo>-<hi>@<start>-<pos>`
+      item: W@lo-hi | w@lo-hi | c@lo-hi | L@lo-hi:<cell> | L@lo-hi:R<hex of the text parsed>:<16 hex bits>
+  C16 nonws x<hex text>                      → the `next_nonws` sequence (blank/comment tokens skipped)
+  C16 loc   x<hex text> <byte offset>        → `ok <line> <col> <lineLo> <lineHi> x<hex whole_line>` | `panic`
+  C16 print <raw fmt flags> <cell>           → `ok x<hex>` | `unsupported`
+-/
+import XehModel.Model.Lex
+import XehModel.Model.LexReal
+import XehModel.Model.Print
 import XehModel.Driver.Codec
 
 namespace Xeh.Driver.C16
+open Xeh Xeh.Codec Xeh.Lex
 
-/-- stub: not modelled yet -/
-def handle (_args : List String) : String := "unsupported"
+def readText (s : String) : Option (List Char) :=
+  match s.toList with
+  | 'x' :: h => hexToStr h
+  | _ => none
+
+def hexText (s : List Char) : String := "x" ++ String.ofList (strToHex s)
+
+def bitsHex (b : UInt64) : String := String.ofList (hexOfNat 16 b.toNat)
+
+def itemStr (it : Item) : String :=
+  let rng := s!"@{it.lo}-{it.hi}"
+  match it.tok with
+  | .eof => "E" ++ rng
+  | .word _ => "w" ++ rng
+  | .ws _ => "W" ++ rng
+  | .comment _ => "c" ++ rng
+  | .lit c => "L" ++ rng ++ ":" ++ cellStr c
+  | .realLit t =>
+    let bits := match decToF64 t with
+      | some b => bitsHex b
+      | none => "invalid"
+    "L" ++ rng ++ ":R" ++ String.ofList (strToHex t) ++ ":" ++ bits
+
+def errStr' (e : LexErr) (lo hi : Nat) : String :=
+  s!"err:{us e.kind.msg}:{e.lo}-{e.hi}@{lo}-{hi}"
+
+def runStr (r : Run) : String :=
+  let items := r.items.map itemStr
+  let fin := match r.err with
+    | none => "eof"
+    | some (e, _, lo, hi) => errStr' e lo hi
+  " ".intercalate (items ++ [fin])
+
+/-- drive `next_nonws` to the end -/
+def nonwsRun : Nat → Lex → List String → List String
+  | 0, _, acc => acc.reverse
+  | n + 1, lx, acc =>
+    match lx.nextNonws with
+    | none => ("fuel" :: acc).reverse
+    | some (.ok .eof, _) => ("eof" :: acc).reverse
+    | some (.ok t, lx') => nonwsRun n lx' (itemStr ⟨t, lx'.last, lx'.startPos, lx'.pos⟩ :: acc)
+    | some (.error e, lx') => (errStr' e lx'.startPos lx'.pos :: acc).reverse
+
+def handle (args : List String) : String :=
+  match args with
+  | ["lex", t] =>
+    match readText t with
+    | some text => runStr (run text)
+    | none => "bad-args"
+  | ["nonws", t] =>
+    match readText t with
+    | some text => " ".intercalate (nonwsRun (text.length + 1) (Lex.new text) [])
+    | none => "bad-args"
+  | ["loc", t, off] =>
+    match readText t, off.toNat? with
+    | some text, some o =>
+      match tokenLocation text o with
+      | .ok (l, wl) => s!"ok {l.line} {l.col} {l.lineLo} {l.lineHi} {hexText wl}"
+      | .err _ => "err"
+      | .panic _ => "panic"
+    | _, _ => "bad-args"
+  | ["print", raw, c] =>
+    match raw.toNat?, readCell c with
+    | some r, some cell =>
+      match Print.printCell (Print.Flags.ofRaw r) cell with
+      | some s => "ok " ++ hexText s
+      | none => "unsupported"
+    | _, _ => "bad-args"
+  | _ => "bad-op"
 
 end Xeh.Driver.C16
